@@ -117,6 +117,11 @@ TESTS = {
     "above_1": _ABOVE_1,
     "lam_a": _LAM_A,
     "lam_b": _LAM_B,
+    # functions of the operator module used as test functions (the index recognises operators by identity)
+    "op_lt": operator.lt,
+    "op_ge": operator.ge,
+    "op_eq": operator.eq,
+    "op_ne": operator.ne,
 }
 
 
@@ -257,7 +262,7 @@ def to_real(ast):
             return fn(ast[4], flags=ast[5])
         return fn(ast[4])
     if kind == "test":
-        return q.test(TESTS[ast[3]], *ast[4])
+        return q.test(TESTS[ast[3]], *[rhs_real(x) for x in ast[4]])
     raise ValueError(kind)
 
 
@@ -328,7 +333,7 @@ def holds(ast, mp):
             return re.match(ast[4], value, ast[5]) is not None
         return re.search(ast[4], value, ast[5]) is not None
     if kind == "test":
-        return bool(TESTS[ast[3]](value, *ast[4]))
+        return bool(TESTS[ast[3]](value, *[rhs_real(x) for x in ast[4]]))
     raise ValueError(kind)
 
 
